@@ -175,7 +175,7 @@ def compare(ctx, cases, impl, res, fails):
         m_min_impl_len = masks[6]
         m_desc, m_anc, m_ureach = [[unmask(m) for m in l] for l in (m_desc, m_anc, m_ureach)]
         nn, ne = len(r['nodes']), len(r['edges'])
-        size = (nn, ne, len(prog), sum(len(o[1]) if o[0] == 'arrows' else 1 for o in prog), sum(o[0] == 'nx' for o in prog))
+        size = (nn, ne, sum(o[0] == 'nx' for o in prog), len(prog), sum(len(o[1]) if o[0] == 'arrows' else 1 for o in prog))
         payload = {'kind': kind, 'prog': [list(o) for o in prog], 'shown': show_prog(prog), 'impl': {k: r[k] for k in ('sets', 'nodes', 'edges')}}
         ctx.count('kind:' + kind)
         ctx.count('nodes:%d' % nn)
